@@ -25,6 +25,9 @@ Vals == << [n |-> "A1",    t |-> "1.1.1.1",                    v |-> V("", "NOER
            \* two service bindings without parameters that differ in nothing but the target
            [n |-> "HT1",   t |-> "NOERROR;HTTPS;1 c1.test",    v |-> V("", "NOERROR", "HTTPS", "1 c1.test")],
            [n |-> "HT2",   t |-> "NOERROR;HTTPS;1 c2.test",    v |-> V("", "NOERROR", "HTTPS", "1 c2.test")],
+           \* a canonical name written with capitals, in the short and in the long spelling: one value
+           [n |-> "C3",    t |-> "Edge.C1.test",               v |-> V("Edge.C1.test", "NOERROR", "", "")],
+           [n |-> "C3L",   t |-> "NOERROR;CNAME;Edge.C1.test", v |-> V("Edge.C1.test", "NOERROR", "", "")],
            [n |-> "EMPTY", t |-> "",                           v |-> Empty] >>
 NV == Len(Vals)
 \* symbol k: value (k-1) \div 4 + 1, important iff bit 0, exception iff bit 1; the empty value only makes sense on exceptions
